@@ -514,6 +514,7 @@ func c03Alphabet(s *sessSys) []sessReq {
 				}
 			}
 			if f := x.far(2); f != nil {
+				add("mod-ufar-fwd-no-dst-interface", sessReq{sReq: sReq{Kind: kMod, Conn: c, UpdateFAR: []sFAR{{ID: 2, Action: ActionForward, HasFwd: true, OHCIP: "11.1.1.141", OHCTEID: 0x7778}}}, Sess: x.Idx})
 				add("mod-ufar-fwd", sessReq{sReq: sReq{Kind: kMod, Conn: c, UpdateFAR: []sFAR{{ID: 2, Action: ActionForward, HasFwd: true, HasDst: true, Dst: ie.DstInterfaceAccess, OHCIP: "11.1.1.140", OHCTEID: 0x7777}}}, Sess: x.Idx})
 				if f.Action&ActionForward != 0 {
 					add("mod-ufar-buffer", sessReq{sReq: sReq{Kind: kMod, Conn: c, UpdateFAR: []sFAR{{ID: 2, Action: ActionBuffer | ActionNotify, HasFwd: true}}}, Sess: x.Idx})
